@@ -25,6 +25,7 @@ import Mathlib.Tactic.FieldSimp
 import Mathlib.Algebra.Order.Field.Basic
 import Mathlib.Algebra.Order.Ring.Rat
 import UxVerif.Model.Arcs
+import UxVerif.Gen.Constants
 
 namespace UxVerif.C14
 open UxVerif.Arcs
@@ -781,6 +782,21 @@ theorem asis_pole_branch_wrong_meridian (pi lat0 lat1 latp : K) (hpi : 0 < pi)
   simp [inBetween, hge, hp']
 
 end AsIs
+
+
+/-! ## The regenerated tolerance constants (translator tie)
+
+  The harness judges only inputs whose exact margin is ≥ 1e-6 rad and accepts returned points up
+  to 1e-9.  These statements are about the constants as they stand in `uxarray/constants.py`
+  *now* (`Gen/Constants.lean` is rewritten on every run): the library's own tolerances stay far
+  inside the margin, so no tolerance of the library can legitimately decide a judged case.  If
+  the constants are changed beyond that, this theorem stops checking. -/
+theorem library_tolerances_below_margin :
+    0 < Gen.ERROR_TOLERANCE_num ∧
+    Gen.ERROR_TOLERANCE_num * 50 * 10 ^ 6 ≤ (Gen.ERROR_TOLERANCE_den : Int) ∧
+    0 < Gen.MACHINE_EPSILON_num ∧
+    Gen.MACHINE_EPSILON_num * 10 ^ 15 ≤ (Gen.MACHINE_EPSILON_den : Int) := by
+  decide +kernel
 
 /-! ## Non-vacuity: concrete inputs meeting the hypotheses (evaluated by the kernel at `ℚ`) -/
 section Examples
